@@ -36,6 +36,8 @@ struct Interpose {
     std::atomic<long> clock{0};
     std::atomic<bool> enabled{false};
     std::atomic<bool> trackOwnership{false};
+    std::vector<size_t> defaultRecvCaps; bool defaultRecvRepeat = false;   // applied to every descriptor returned by accept4
+    std::atomic<bool> capAccepted{false};
 };
 inline Interpose& ip() { static Interpose* p = new Interpose(); return *p; }
 
@@ -127,6 +129,7 @@ int accept4(int fd, struct sockaddr* a, socklen_t* l, int flags) {
     int r = real(fd, a, l, flags);
     lv::Interpose& I = lv::ip();
     if (r >= 0 && I.trackOwnership.load(std::memory_order_relaxed)) { std::lock_guard<std::mutex> g(I.m); I.owned.insert(r); I.accepts++; }
+    if (r >= 0 && I.capAccepted.load(std::memory_order_relaxed)) { std::lock_guard<std::mutex> g(I.m); lv::FdState& s = I.fds[r]; s = lv::FdState(); s.recvCaps = I.defaultRecvCaps; s.recvRepeat = I.defaultRecvRepeat; }
     return r;
 }
 int close(int fd) {
@@ -137,7 +140,7 @@ int close(int fd) {
         auto it = I.owned.find(fd);
         if (it != I.owned.end()) { I.owned.erase(it); I.closesOwned++; }
         I.fds.erase(fd);
-    }
+    } else if (I.capAccepted.load(std::memory_order_relaxed)) { std::lock_guard<std::mutex> g(I.m); I.fds.erase(fd); }
     return real(fd);
 }
 }
